@@ -7,6 +7,7 @@ History + reference accumulator; validators are generated as tables over a small
 from .. import core, harness, vloop
 
 PROP = 'C17'
+TECHNIQUE = ('runtime monitoring: reference accumulator (allowed, check, schema in the documented order) compared with outputs and return values of Input/InputExp over generated put sequences')
 LEVEL = 'exploration'
 RULE = ("case = (block kind Input/InputExp, allowed subset or None, check table or None, schema "
         "table or None (entries may raise), initdef/expired/stored values, put sequence of "
